@@ -56,6 +56,9 @@ func runGroup(t *testing.T, group string) {
 				inputs = append(inputs, m.Data)
 			}
 			inputs = append(inputs, s)
+			mi := magicInputs(s)
+			sort.Slice(mi, func(i, j int) bool { return string(mi[i]) < string(mi[j]) })
+			inputs = append(inputs, mi...)
 		}
 		inputs = append(inputs, e.extra...)
 		inputs = append(inputs, []byte{}, nil)
@@ -134,6 +137,85 @@ func runGroup(t *testing.T, group string) {
 	}
 	sort.Strings(names)
 	lib.Sample("TestVerif"+group, map[string]any{"entry_points": names})
+}
+
+// magic holds the moduli and group orders of the library's curves and fields:
+// decoders compare against them, and "equal to the modulus" is the input most
+// likely to take an untested branch.
+var magic = func() [][]byte {
+	hexes := []string{
+		"1000000000000000000000000000000014def9dea2f79cd65812631a5cf5d3ed",                                                 // ed25519 / ristretto255 order
+		"7fffffffffffffffffffffffffffffffffffffffffffffffffffffffffffffed",                                                 // 2^255-19
+		"3fffffffffffffffffffffffffffffffffffffffffffffffffffffff7cca23e9c44edb49aed63690216cc2728dc58f552378c292ab5844f3", // ed448 order
+		"fffffffffffffffffffffffffffffffffffffffffffffffffffffffeffffffffffffffffffffffffffffffffffffffffffffffffffffffff", // 2^448-2^224-1
+		"ffffffff00000000ffffffffffffffffbce6faada7179e84f3b9cac2fc632551",                                                 // P-256 n
+		"ffffffff00000001000000000000000000000000ffffffffffffffffffffffff",                                                 // P-256 p
+		"ffffffffffffffffffffffffffffffffffffffffffffffffc7634d81f4372ddf581a0db248b0a77aecec196accc52973",                 // P-384 n
+		"fffffffffffffffffffffffffffffffffffffffffffffffffffffffffffffffeffffffff0000000000000000ffffffff",                 // P-384 p
+		"01fffffffffffffffffffffffffffffffffffffffffffffffffffffffffffffffffffa51868783bf2f966b7fcc0148f709a5d03bb5c9b8899c47aebb6fb71e91386409", // P-521 n
+		"01ffffffffffffffffffffffffffffffffffffffffffffffffffffffffffffffffffffffffffffffffffffffffffffffffffffffffffffffffffffffffffffffffffff", // P-521 p
+		"73eda753299d7d483339d80809a1d80553bda402fffe5bfeffffffff00000001",                                                 // BLS12-381 r
+		"1a0111ea397fe69a4b1ba7b6434bacd764774b84f38512bf6730d2a0f6b0f6241eabfffeb153ffffb9feffffffffaaab",                 // BLS12-381 p
+		"7fffffffffffffffffffffffffffffff",                                                                                 // 2^127-1
+		"ffffffff00000001",                                                                                                 // prio3 Fp64
+		"ffffffffffffffe40000000000000001",                                                                                 // prio3 Fp128
+	}
+	var out [][]byte
+	for _, h := range hexes {
+		be := lib.MustHex(h)
+		for delta := -1; delta <= 1; delta++ {
+			v := lib.Clone(be)
+			// add delta (big endian)
+			for i, d := len(v)-1, delta; i >= 0 && d != 0; i-- {
+				n := int(v[i]) + d
+				v[i] = byte(n)
+				if n < 0 {
+					d = -1
+				} else if n > 255 {
+					d = 1
+				} else {
+					d = 0
+				}
+			}
+			le := make([]byte, len(v))
+			for i := range v {
+				le[len(v)-1-i] = v[i]
+			}
+			out = append(out, v, le)
+		}
+	}
+	return out
+}()
+
+// magicInputs overwrites the head, the tail and (for short encodings) every
+// aligned window of a valid encoding with each magic constant; constants
+// followed by a zero byte cover the 57-byte Ed448 scalar form.
+func magicInputs(valid []byte) [][]byte {
+	var out [][]byte
+	n := len(valid)
+	for _, m := range magic {
+		for _, c := range [][]byte{m, append(lib.Clone(m), 0)} {
+			l := len(c)
+			if l > n {
+				continue
+			}
+			offs := map[int]bool{0: true, n - l: true}
+			if n <= 256 {
+				for o := 0; o+l <= n; o += l {
+					offs[o] = true
+				}
+				for o := n - l; o >= 0; o -= l {
+					offs[o] = true
+				}
+			}
+			for o := range offs {
+				v := lib.Clone(valid)
+				copy(v[o:], c)
+				out = append(out, v)
+			}
+		}
+	}
+	return out
 }
 
 func trimStack(s string) string {
